@@ -362,6 +362,7 @@ def source_to_code_protocol(ctx, RULE):
         # a transformer that fails must fail the import: compiling the module untransformed instead would run it
         # unchecked — and, inside the patched get_code, cache that under the beartype marker
         F.faithful_try = True
+        olds_v = [(n, F.patch_global(LOADER, n, False)) for n in ver]
         for exc in ('RecursionError', 'ValueError'):
             failing['transformer'] = exc
             del log[:]
@@ -376,6 +377,8 @@ def source_to_code_protocol(ctx, RULE):
                    'when the transformer raises, no code object is produced for the hooked module', raised is not None,
                    f'evaluates to {out!r}: the module is compiled without the transformation')
         failing.clear()
+        for n, o in olds_v:
+            F.patch_global(LOADER, n, o)
     finally:
         F.faithful_try = False
         F.builtin_hook = saved_b
